@@ -1081,3 +1081,152 @@ pub fn long_numeric_texts() -> Vec<String> {
     }
     out
 }
+
+// families added after the sixteenth round (appended)
+
+/// l[i] <- v where the slot already holds a value that is equal to v by contents but is another value (another list,
+/// the other zero): the slot holds v afterwards, seen through later changes of either list
+pub fn indexed_store_equal_contents_family() -> Vec<String> {
+    let mut out = vec![];
+    for (a, b) in [("[1]", "[1]"), ("[]", "[]"), ("[[2], 3]", "[[2], 3]"), ("[\"a\"]", "[\"a\"]"), ("[0]", "[-0]"), ("[NULL, TRUE]", "[NULL, TRUE]")] {
+        out.push(format!("inner <- {a}\nother <- {b}\nl <- [inner, 2]\nl[1] <- other\nAPPEND(other, 5)\nDISPLAY(l)\nAPPEND(inner, 7)\nDISPLAY(l)\nDISPLAY(inner)\nDISPLAY(other)\n"));
+        out.push(format!("inner <- {a}\nother <- {b}\nl <- [0, [inner, inner]]\nl[2][2] <- other\nAPPEND(inner, 7)\nDISPLAY(l)\nAPPEND(other, 5)\nDISPLAY(l)\n"));
+        out.push(format!("PROCEDURE put(l, v) {{\nl[LENGTH(l)] <- v\n}}\ninner <- {a}\nother <- {b}\nl <- [2, inner]\nput(l, other)\nINSERT(other, 1, 9)\nDISPLAY(l)\nDISPLAY(inner)\n"));
+    }
+    out.push("l <- [0, -0, 5]\nl[1] <- -0\nl[2] <- 0\nl[3] <- 5\nDISPLAY(1 / l[1] < 0)\nDISPLAY(1 / l[2] < 0)\nDISPLAY(l)\n".into());
+    out.push("a <- [1]\nb <- [1]\nl <- [a, b]\nl[1] <- l[2]\nAPPEND(b, 2)\nDISPLAY(l)\nDISPLAY(a)\n".into());
+    out.push("a <- [1]\nb <- [1]\nl <- [a, b]\nt <- l[1]\nl[1] <- l[2]\nl[2] <- t\nAPPEND(a, 3)\nDISPLAY(l)\n".into());
+    out
+}
+
+/// an assignment whose value is itself an assignment, without and with parentheses around the inner one: the outer
+/// list and index are evaluated first in both forms
+pub fn chained_set_twins() -> Vec<(String, String)> {
+    let mut out = vec![];
+    let pre = "PROCEDURE t(x) {\nDISPLAY(x)\nRETURN x\n}\na <- [1, 2, 3]\nb <- [4, 5, 6]\nc <- [7, 8, 9]\nx <- 0\n";
+    for (outer, inner, v) in [
+        ("a[t(1)]", "b[t(2)]", "t(3)"),
+        ("a[t(1)]", "x", "t(2)"),
+        ("x", "a[t(1)]", "t(2)"),
+        ("a[a[3]]", "a[3]", "1"),
+        ("a[b[1] - 3]", "b[1]", "5"),
+        ("a[x + 1]", "x", "1"),
+        ("a[t(3)]", "a[t(1)]", "a[t(2)]"),
+        ("b[LENGTH(a)]", "a", "[1]"),
+        ("a[LENGTH(b) - 2]", "b", "[1, 2, 3, 4]"),
+    ] {
+        out.push((format!("{pre}{outer} <- {inner} <- {v}\nDISPLAY(a)\nDISPLAY(b)\nDISPLAY(x)\n"), format!("{pre}{outer} <- ({inner} <- ({v}))\nDISPLAY(a)\nDISPLAY(b)\nDISPLAY(x)\n")));
+        out.push((format!("{pre}DISPLAY({outer} <- {inner} <- {v})\nDISPLAY(a)\nDISPLAY(b)\n"), format!("{pre}DISPLAY(({outer} <- ({inner} <- ({v}))))\nDISPLAY(a)\nDISPLAY(b)\n")));
+    }
+    out.push((format!("{pre}a[t(1)] <- b[t(2)] <- c[t(3)] <- t(1)\nDISPLAY(a)\nDISPLAY(b)\nDISPLAY(c)\n"), format!("{pre}a[t(1)] <- (b[t(2)] <- (c[t(3)] <- t(1)))\nDISPLAY(a)\nDISPLAY(b)\nDISPLAY(c)\n")));
+    out
+}
+
+/// IF with a brace-less branch and an ELSE, with every kind of separation between the branch and the ELSE:
+/// (variant, canonical layout)
+pub fn unbraced_else_separations() -> Vec<(String, String)> {
+    let mut out = vec![];
+    for c in ["TRUE", "FALSE"] {
+        for (then, els) in [("DISPLAY(1)", "DISPLAY(2)"), ("x <- 1", "x <- 2"), ("x <- [1]", "IF (x == 0) x <- 3"), ("{\nx <- 1\n}", "x <- 2")] {
+            let canon = format!("x <- 0\nIF ({c}) {then}\nELSE {els}\nDISPLAY(x)\n");
+            for sep in ["\n\n", "\n  \n", "\n\t\n\n", "\n// note\n", " // note\n", "\n// a\n\n// b\n", " ;\n", ";\n", ";\n\n", "\r\n", "\r\n\r\n"] {
+                out.push((format!("x <- 0\nIF ({c}) {then}{sep}ELSE {els}\nDISPLAY(x)\n"), canon.clone()));
+            }
+            // ELSE IF chains and the else branch on its own line
+            out.push((format!("x <- 0\nIF ({c}) {then}\n\nELSE\n\n{els}\nDISPLAY(x)\n"), canon.clone()));
+        }
+        let canon = format!("x <- 0\nIF ({c}) x <- 1\nELSE IF (x == 0) x <- 2\nELSE x <- 3\nDISPLAY(x)\n");
+        for sep in ["\n\n", "\n// c\n", ";\n", " ;\n\n"] {
+            out.push((format!("x <- 0\nIF ({c}) x <- 1{sep}ELSE IF (x == 0) x <- 2{sep}ELSE x <- 3\nDISPLAY(x)\n"), canon.clone()));
+        }
+    }
+    out
+}
+
+/// a backslash followed by every printable ASCII character (and a few others) inside a string literal
+pub fn every_escape_family() -> Vec<String> {
+    let mut out = vec![];
+    let mut chars: Vec<char> = (0x20u8..0x7f).map(|b| b as char).collect();
+    chars.extend(['\t', '\r', 'é', '’', '‘', '“', '\u{7f}', '\u{0}']);
+    for c in chars {
+        out.push(format!("DISPLAY(\"it\\{c}s\")\n"));
+        out.push(format!("x <- \"\\{c}\"\n"));
+        out.push(format!("x <- \"\\{c}"));
+    }
+    out
+}
+
+/// after every kind of token that can end a line, a line that starts with a multi-byte character at every small
+/// byte offset (texts the lexer may look ahead into)
+pub fn line_start_multibyte_family() -> Vec<String> {
+    let mut out = vec![];
+    for head in ["IF (TRUE) {\n}", "x <- (1)", "x <- [1]", "x <- y", "x <- 1", "x <- \"s\"", "PROCEDURE f() {\nRETURN\n}", "IF (TRUE) {\n} ELSE {\n}", "REPEAT 1 TIMES {\nBREAK", "x <- TRUE", "x <- NOT", "x <- 1 +"] {
+        for sep in ["\n", "\r\n", " \n ", "\n\n", ";", " "] {
+            for k in 0..6usize {
+                for mb in ["é", "中", "😀", "→"] {
+                    out.push(format!("{head}{sep}{}{mb}", "a".repeat(k)));
+                    out.push(format!("{head}{sep}{}{mb} <- 2\nDISPLAY(1)\n", "a".repeat(k)));
+                }
+            }
+            out.push(format!("{head}{sep}// → note\n"));
+            out.push(format!("{head}{sep}ELS中\n"));
+            out.push(format!("{head}{sep}els\u{e9}"));
+        }
+    }
+    out
+}
+
+/// procedure headers in which a parameter name occurs more than once (derivable: the grammar says a list of names)
+pub fn repeated_parameter_family() -> Vec<String> {
+    let mut out = vec![];
+    for params in ["a, a", "a, b, a", "a, b, b", "a, a, a", "x, y, z, x", "a, A", "é, é", "p, q, r, s, q"] {
+        let n = params.split(',').count();
+        let args: Vec<String> = (1..=n).map(|i| i.to_string()).collect();
+        let first = params.split(',').next().unwrap().trim();
+        for kw in ["PROCEDURE", "EXPORT PROCEDURE", "procedure"] {
+            out.push(format!("{kw} f({params}) {{\nRETURN {first}\n}}\nDISPLAY(f({}))\n", args.join(", ")));
+            out.push(format!("IF (TRUE) {{\n}}\n{kw} f({params}) {{\n}}\n"));
+        }
+    }
+    out
+}
+
+/// indexing a text with multi-byte characters at every position up to and beyond its byte length
+pub fn text_index_byte_window_family() -> Vec<String> {
+    let mut out = vec![];
+    for s in ["héllo", "中", "😀a", "é", "aé", "日本語", "a😀", "ab"] {
+        for i in 0..=(s.len() + 2) {
+            out.push(format!("s <- \"{s}\"\nDISPLAY(\"r\")\nDISPLAY(s[{i}])\n"));
+            out.push(format!("s <- \"{s}\"\nl <- [s]\nDISPLAY(l[1][{i}] == \"a\")\n"));
+        }
+        out.push(format!("s <- \"{s}\"\nn <- 0\nFOR EACH c IN s {{\nn <- n + 1\n}}\nDISPLAY(n)\nDISPLAY(s[n])\nDISPLAY(s[n + 1])\n"));
+    }
+    out
+}
+
+/// RANDOM on ranges whose width sits at the limits of the machine integer types
+pub fn random_width_family() -> Vec<(i64, i64)> {
+    let mut out = vec![];
+    for w in [127i64, 128, 129, 254, 255, 256, 257, 32767, 32768, 65534, 65535, 65536, 65537, 2147483647, 2147483648, 4294967294, 4294967295, 4294967296, 4294967297] {
+        out.push((0, w));
+        out.push((1, w + 1));
+        out.push((-(w / 2) - 1, w - (w / 2) - 1));
+    }
+    out
+}
+
+/// MAP_KEYS / MAP_VALUES of maps that live only during a procedure call, one after the other (a later map may reuse
+/// the storage of an earlier one), and of one variable bound to a new map again and again
+pub fn short_lived_maps_family() -> Vec<String> {
+    let mut out = vec![];
+    let imp = "IMPORT MOD \"MAP\"\n";
+    for q in ["MAP_KEYS", "MAP_VALUES"] {
+        out.push(format!("{imp}PROCEDURE mk(k) {{\nm <- MAP()\nMAP_INSERT(m, k, \"v\" + k)\nRETURN {q}(m, 0)\n}}\nDISPLAY(mk(\"a\"))\nDISPLAY(mk(\"b\"))\nDISPLAY(mk(3))\nDISPLAY(mk(\"a\"))\n"));
+        out.push(format!("{imp}PROCEDURE mk(k) {{\nm <- MAP()\nMAP_INSERT(m, k, k)\nMAP_INSERT(m, k + 1, k)\nRETURN LENGTH({q}(m, 0)) + {q}(m, 0)[1] + {q}(m, 0)[2]\n}}\nDISPLAY(mk(1))\nDISPLAY(mk(10))\nDISPLAY(mk(100))\n"));
+        out.push(format!("{imp}i <- 0\nREPEAT 6 TIMES {{\ni <- i + 1\nm <- NULL\nm <- MAP()\nMAP_INSERT(m, i, i * 2)\nDISPLAY({q}(m, 0))\n}}\n"));
+        out.push(format!("{imp}i <- 0\nREPEAT 6 TIMES {{\ni <- i + 1\nm <- MAP()\nMAP_INSERT(m, i, i * 2)\nDISPLAY({q}(m, 0))\n}}\n"));
+        out.push(format!("{imp}PROCEDURE show(k) {{\nDISPLAY({q}(one(k), 0))\n}}\nPROCEDURE one(k) {{\nm <- MAP()\nMAP_INSERT(m, k, k)\nRETURN m\n}}\nshow(1)\nshow(2)\nshow(\"x\")\nDISPLAY({q}(one(4), 0))\nDISPLAY({q}(one(5), 0))\n"));
+        out.push(format!("{imp}m <- MAP()\nMAP_INSERT(m, 1, 1)\nDISPLAY({q}(m, 0))\nMAP_INSERT(m, 1, 2)\nDISPLAY({q}(m, 0))\nn <- MAP()\nMAP_INSERT(n, 2, 3)\nDISPLAY({q}(n, 0))\nDISPLAY({q}(m, 0))\n"));
+    }
+    out
+}
